@@ -45,6 +45,7 @@ import (
 	"strings"
 	"sync"
 	"testing"
+	"unicode/utf8"
 
 	"github.com/LiskHQ/lisk-engine/pkg/blockchain"
 	"github.com/LiskHQ/lisk-engine/pkg/codec"
@@ -418,6 +419,11 @@ func blockNested(s []byte) nestedVerdict {
 		sub := asSub[k]
 		if a == nil {
 			return fail("asset %d of the accepted block is nil", k)
+		}
+		// canonical by the package's own wire model: module(1, NFC string) data(2, bytes), each once, shortest varints
+		if afs, ok := parseWire(sub, true); !ok || len(afs) != 2 || afs[0].num != 1 || afs[0].wt != 2 || afs[1].num != 2 || afs[1].wt != 2 ||
+			!utf8.Valid(afs[0].data) || nfc(string(afs[0].data)) != string(afs[0].data) {
+			return fail("asset %d embedded in the accepted block: accepted bytes %x are not canonical by the wire model (module(1) string, data(2) bytes, shortest varints, nothing else); the decoded asset encodes to %x", k, sub, a.Encode())
 		}
 		if re := a.Encode(); !bytes.Equal(re, sub) {
 			return fail("asset %d embedded in the accepted block: accepted bytes %x are not canonical, the decoded asset encodes to %x", k, sub, re)
